@@ -116,7 +116,10 @@ def merge_jobs(n: int, seed: int, start: int = 0, classes=("ih5", "mf")) -> List
             sc.append({"op": "merge", "target": "merged1"})
             if rng.random() < 0.5:
                 sc += [{"op": "close", "commit": True},
-                       {"op": "open", "mode": rng.choice(["r+", "a"]), "rname": "$main", "bylist": rng.random() < 0.5}]
+                       {"op": "open", "mode": rng.choice(["r+", "a"]), "rname": "$main", "bylist": rng.random() < 0.5,
+                        "mfalt": rng.random() < 0.5}]   # manifest-carrying records: the manifest is given explicitly
+                if rng.random() < 0.5:   # merge right after reopening (the newest manifest may live elsewhere)
+                    sc += [{"op": "discard"}, {"op": "merge", "target": "other"}, {"op": "create_patch"}]
             else:
                 sc.append({"op": "create_patch"})
             for _ in range(rng.randint(1, 3)):
